@@ -199,7 +199,12 @@ impl<'r> G<'r> {
     pub fn nl(&mut self) {
         let mut e = self.eol;
         if self.cfg.mixed_eol {
-            e = if self.rng.chance(1, 2) { "\r\n" } else { "\n" };
+            // LF, CRLF, and now and then a lone CR (also directly in front of a CRLF: two line breaks, CR CR LF)
+            e = match self.rng.below(8) {
+                0..=3 => "\n",
+                4..=6 => "\r\n",
+                _ => "\r",
+            };
         }
         let after_comment = {
             let t = &self.files[self.cur].text;
@@ -209,7 +214,7 @@ impl<'r> G<'r> {
         self.put(e);
         if self.cfg.mixed_eol && !after_comment && self.rng.chance(1, 4) {
             // an empty line with the other terminator
-            let e2 = if e == "\n" { "\r\n" } else { "\n" };
+            let e2 = if e == "\n" || e == "\r" { "\r\n" } else { "\n" };
             self.put(e2);
         }
         let ind = "  ".repeat(self.indent);
